@@ -9,6 +9,8 @@
 (*        from_pmf[e] / from_cdf[e] / reduce / sample[n] / iter            *)
 (*                       -> vals, cums, bad     (the entries of the object)*)
 (*        sample_fresh[n] -> the same, on a copy (state not advanced)      *)
+(*        shift_values[k] -> the same, after adding k to every value       *)
+(*                       through iter_mut                                  *)
 (*        get[x], get_pmf[x] -> some, p, bad ; total_prob -> p, bad        *)
 (*        len -> n, empty ; iter_pmf -> vals, ps, bad ; map -> some, v     *)
 (*        credible_interval[wn, wd] -> some, lo, hi                        *)
@@ -52,6 +54,7 @@ ValsSubSeq(sq, vals) ==
     /\ \A j \in 1..(Len(vals) - 1) : vals[j] < vals[j + 1]
 PickByVals(sq, vals) == SubSeqBy(sq, {i \in 1..Len(sq) : \E j \in 1..Len(vals) : vals[j] = sq[i].v})
 ValsOf(sq) == [i \in 1..Len(sq) |-> sq[i].v]
+Shifted(sq, k) == [i \in 1..Len(sq) |-> [v |-> sq[i].v + k, c |-> sq[i].c]]
 
 Built(cfg, c) ==
     IF c.op = "from_pmf" THEN CapM(CdfDef(ScalePmf(c.a.e, cfg.k)), cfg.s)
@@ -82,6 +85,7 @@ CdfExplains(cfg, sq, c, r) ==
     LET op == c.op  a == c.a IN
     CASE op \in {"from_pmf", "from_cdf"} -> r.st = "ok" /\ DumpNear(Built(cfg, c), r)
       [] op = "iter" -> r.st = "ok" /\ DumpNear(sq, r)
+      [] op = "shift_values" -> r.st = "ok" /\ DumpNear(Shifted(sq, a.k), r)
       [] op = "reduce" -> r.st = "ok" /\ ReduceGood(sq, r)
       [] op \in {"sample", "sample_fresh"} ->
            IF a.n <= 1 THEN r.st = "panic" ELSE r.st = "ok" /\ SampleGood(sq, a.n, r)
@@ -127,6 +131,7 @@ CdfAfter(cfg, sq, c, r) ==
     CASE c.op \in {"from_pmf", "from_cdf"} -> Built(cfg, c)
       [] c.op = "reduce" -> PickByVals(sq, r.vals)                 \* = ReduceDef(sq) unless DRIFT
       [] c.op = "sample" -> IF c.a.n <= 1 THEN sq ELSE PickByVals(sq, r.vals)
+      [] c.op = "shift_values" -> Shifted(sq, c.a.k)
       [] OTHER -> sq
 
 \* ----------------------------------------------------------------- model
@@ -187,7 +192,15 @@ FdrExact(cfg, c, r) == \A i \in 1..Len(c.a.peps) : FdrNear(cfg, c.a, r, i, FdrSt
 \* ----------------------------------------------------------------- integ
 IntegExplains(cfg, c, r) ==
     /\ c.op = "ln_integrate_exp" /\ r.st = "ok" /\ r.bad = 0
-    /\ LET want == (TwiceArea(c.a.knots) * cfg.s) \div (2 * c.a.den * c.a.hd) IN Abs(r.v - want) <= IntegTol(want)
+    /\ LET want == (TwiceArea(c.a.knots) * cfg.s) \div (2 * c.a.den * c.a.hd)
+           k == c.a.knots IN
+       IF Len(k) = 3 /\ ~OnFirstGridPoint(k)
+       THEN \* symmetric about a mode anywhere: the chord over the cell of the mode cuts off at most slope r^2 / 4
+            /\ IsPeak(k)
+            /\ r.v <= want + IntegTol(want)
+            /\ r.v >= want - IntegTol(want) - PeakSlack(k, c.a.den, c.a.hd, c.a.rnum, c.a.rden, cfg.s)
+       ELSE \* linear, or two pieces meeting at the first grid point: the trapezoid sum does not depend on the grid
+            Abs(r.v - want) <= IntegTol(want)
 
 \* ---------------------------------------------------------------- verdicts
 Explains(cfg, s, e) ==
